@@ -281,3 +281,65 @@ def word_paths(root, word_re) -> dict:
 
     walk(root, [])
     return {"paths": found, "kind_counts": counts}
+
+
+# ---------------------------------------------------------------------------
+# C01-G: spellings of the abstract chunks of Gen_Parser and the dump of a real
+# tree in the machine's vocabulary (full-tree comparison, DRIFT only)
+# ---------------------------------------------------------------------------
+# chunk -> [primary spelling, alternative spellings ...]
+SPELL = {
+    "W": ["w", "foo", "é日"], "SP": [" ", " ", "\t"], "NL": ["\n"],
+    "EQ1": ["="], "EQ2": ["=="], "EQ3": ["==="],
+    "Q2": ["''"], "Q3": ["'''"], "Q5": ["'''''"],
+    "*": ["*"], "#": ["#"], ";": [";"], ":": [":"],
+    "HR": ["----", "-------"],
+    "TS": ["{|"], "TE": ["|}"], "TR": ["|-", "|--"], "TC": ["|+"], "VB": ["|"], "DVB": ["||"], "EX": ["!"], "DEX": ["!!"],
+    "ATTR": ["a=b", "a=\"b\"", "a = b"],
+    "SPAN": ["<span>", "<SPAN>", "<span >"], "SPANA": ["<span class=\"c\">", "<span class='c' id=i>"],
+    "ESPAN": ["</span>", "</span >", "</SPAN>"], "SPANS": ["<span/>", "<span />"],
+    "DIV": ["<div>", "<div\n>"], "EDIV": ["</div>"], "BR": ["<br>", "<br/>", "<br />"], "EBR": ["</br>"],
+    "REF": ["<ref>", "<ref name=\"n\">"], "EREF": ["</ref>"], "UL": ["<ul>"], "EUL": ["</ul>"], "LI": ["<li>"], "ELI": ["</li>"],
+    "PRE": ["<pre>", "<pre class=\"p\">", "<PRE>"], "EPRE": ["</pre>", "</pre >", "</PRE>"],
+    "UNK": ["<foo>", "<1>"], "EUNK": ["</foo>", "</1>"],
+    "MT": ["{{t}}", "{{d|x}}", "{{PAGENAME}}"], "MTN": ["{{t\n|a}}", "{{d|\nx\n}}"], "MA": ["{{{1}}}", "{{{1|d}}}"],
+    "ML": ["[[L]]", "[[L|x y]]", "[[File:f.png|thumb|c]]"], "ME": ["[http://x.org w]", "[https://x.org/p?q w v]"],
+    "MN": ["<nowiki>x</nowiki>", "<nowiki>''=*|</nowiki>"], "MW": ["__NOTOC__", "__TOC__"],
+    "URL": ["http://x.org", "https://x.org/p"],
+}
+
+# longest match first: source text -> atom of the machine
+VOCAB = [
+    ("[http://x.org w]", "magicE"), ("{{t\n|a}}", "magicT"), ("{{t}}", "magicT"), ("{{{1}}}", "magicA"), ("[[L]]", "magicL"),
+    ("http://x.org", "url"), ("__NOTOC__", "__NOTOC__"),
+    ("<span class=\"c\">", "<span>"), ("<span/>", "<span>"), ("<span>", "<span>"), ("</span>", "</span>"),
+    ("<div>", "<div>"), ("</div>", "</div>"), ("<br>", "<br>"), ("</br>", "</br>"), ("<ref>", "<ref>"), ("</ref>", "</ref>"),
+    ("<ul>", "<ul>"), ("</ul>", "</ul>"), ("<li>", "<li>"), ("</li>", "</li>"), ("<pre>", "<pre>"), ("</pre>", "</pre>"),
+    ("<foo>", "<foo>"), ("</foo>", "</foo>"),
+    ("----", "----"), ("'''", "'''"), ("''", "''"), ("a=b", "a=b"), ("=b", "=b"), (" ", "SP"), ("\n", "NL"), ("x", "nowiki"),
+]
+VOCAB_RE = re.compile("|".join(re.escape(k) for k, _ in VOCAB) + "|.", re.S)
+VOCAB_MAP = dict(VOCAB)
+
+
+def atoms_vocab(s: str) -> list:
+    return [VOCAB_MAP.get(m.group(0), m.group(0)) for m in VOCAB_RE.finditer(s)]
+
+
+def dump_model(node, top=True) -> dict:
+    from wikitextprocessor.parser import WikiNode
+
+    def lst(l):
+        return [{"s": atoms_vocab(c)} if isinstance(c, str) else dump_model(c, False) for c in l if isinstance(c, (str, WikiNode))]
+
+    k = node.kind.name
+    d = {
+        "kind": k,
+        "sarg": list(node.sarg) if k in ("LIST", "LIST_ITEM") else ([node.sarg] if node.sarg else []),
+        "largs": [] if top else [lst(a) for a in node.largs],
+        "attrs": list(node.attrs.keys()),
+        "children": lst(node.children),
+    }
+    if node.definition is not None:
+        d["def"] = lst(node.definition)
+    return d
